@@ -286,6 +286,11 @@ func (w *Worker) intrinsic(s *State, f *Frame, name string, fn *ssa.Function, ar
 			s.ghost["clock/ns"] = t
 			s.ghost["clock/ms"] = BinBV("bvudiv", t, BV(64, 1000000))
 			return adv(nil)
+		case "FrozenClockNs":
+			if v, ok := s.ghost["clock/ns"]; ok {
+				return adv(v)
+			}
+			return adv(BV(64, 0))
 		case "LastSleepNs":
 			if v, ok := s.ghost["sleep/last"]; ok {
 				return adv(v)
